@@ -15,12 +15,26 @@ inductive Val where
   | list (xs : List Val)
   | obj (id : Nat)
   | fn (name : String)            -- functions, classes, modules, builtins: "not representable" values
+  | tuple (xs : List Val)
+  | set (xs : List Val)           -- produced by `Ops.mkSet` only (element order: whatever the instance chooses)
+  | dict (ks : List Val) (vs : List Val)   -- produced by `Ops.dictSet` / `Ops.dictUpdate` only
+  | slice (lo : Val) (hi : Val) (step : Val)
 deriving Repr, Inhabited, BEq
 
 abbrev Exc := String
 
 inductive UnOp where
   | neg | pos | inv | not
+deriving DecidableEq, Repr, Inhabited
+
+/-- the kind of a display `[...]`, `(...)`, `{...}` -/
+inductive CollKind where
+  | list | tuple | set
+deriving DecidableEq, Repr, Inhabited
+
+/-- the conversion of a formatted value: none, `!s`, `!r`, `!a` -/
+inductive Conv where
+  | none | s | r | a
 deriving DecidableEq, Repr, Inhabited
 
 abbrev BinOp := String     -- "+", "-", "*", "//", "%", ...
@@ -39,11 +53,21 @@ inductive Expr where
   | ifexp (id : Nat) (c : Expr) (t : Expr) (e : Expr)
   | display (id : Nat) (es : List Expr)                       -- list display
   | comp (id : Nat) (targets : List String) (inner : List Expr)  -- comprehension: executed natively, `inner` = its parts
+  -- forms added in the second version of the model (`_recompute.py`: `_visit_elts`, `visit_Tuple`, `visit_Set`,
+  -- `visit_Dict`, `visit_Slice`, the starred / keyword part of `visit_Call`, `visit_FormattedValue`, `visit_JoinedStr`)
+  | starred (id : Nat) (e : Expr)                               -- `*e`: only meaningful as an element of `coll` / an argument of `callkw`
+  | coll (id : Nat) (kind : CollKind) (es : List Expr)          -- tuple / set display, list display with starred elements
+  | dict (id : Nat) (items : List (Option Expr × Expr))         -- `{k: v, **u}`: key `none` is an unpacking
+  | slice (id : Nat) (lo : Option Expr) (hi : Option Expr) (step : Option Expr)
+  | callkw (id : Nat) (f : Expr) (args : List Expr) (kws : List (Option String × Expr))   -- `f(a, *b, k=c, **d)`
+  | fvalue (id : Nat) (e : Expr) (conv : Conv) (spec : Option Expr)   -- `{e!r:spec}` inside an f-string; `spec` is an f-string
+  | fstring (id : Nat) (parts : List Expr)                      -- `f"..."`: constants and formatted values
 deriving Repr, Inhabited
 
 def Expr.id : Expr → Nat
   | .const i _ | .name i _ | .attr i _ _ | .subscr i _ _ | .call i _ _ | .unary i _ _ | .bin i _ _ _
-  | .boolop i _ _ | .compare i _ _ | .ifexp i _ _ _ | .display i _ | .comp i _ _ => i
+  | .boolop i _ _ | .compare i _ _ | .ifexp i _ _ _ | .display i _ | .comp i _ _
+  | .starred i _ | .coll i _ _ | .dict i _ | .slice i _ _ _ | .callkw i _ _ _ | .fvalue i _ _ _ | .fstring i _ => i
 
 /-- the semantics of everything the expression does to values -/
 structure Ops where
@@ -55,6 +79,16 @@ structure Ops where
   subscr : Val → Val → Except Exc Val
   call : Val → List Val → Except Exc Val
   comp : Nat → List (String × Val) → Except Exc Val   -- native execution of comprehension `id` in a name table
+  -- second version
+  mkSet : List Val → Except Exc Val                   -- `set(xs)` (may raise: unhashable element)
+  iter : Val → Except Exc (List Val)                  -- the elements of `*v`
+  dictEmpty : Val                                     -- `{}`
+  dictSet : Val → Val → Val → Except Exc Val          -- `d[k] = v` (may raise: unhashable key)
+  dictUpdate : Val → Val → Except Exc Val             -- `d.update(u)` for `**u` in a dictionary display
+  kwItems : Val → Except Exc (List (String × Val))    -- the pairs of `**v` in a call
+  callkw : Val → List Val → List (String × Val) → Except Exc Val
+  format : Val → Conv → Option Val → Except Exc Val   -- `"{!conv:spec}".format(v)`
+  join : List Val → Except Exc Val                    -- `"".join(parts)`
 
 /-- names: arguments > closure > globals (already merged by precedence), then the builtins -/
 structure Env where
